@@ -335,6 +335,10 @@ let step_preds : (string * (vconfig -> fstep -> bool)) list = [
   ("c14_segments_ok", c14_segments_ok);
   ("c08_deadline_ok", c08_deadline_ok);
   ("c14_wire_ok", c14_wire_ok);
+  ("c18_off_all_segmented_ok", c18_off_all_segmented_ok);
+  ("c18_drain_sends_ok", c18_drain_sends_ok);
+  ("c18_buffered_segmented_ok", c18_buffered_segmented_ok);
+  ("c18_pre_ok", c18_pre_ok);
   ("c05_window_ok2", c05_window_ok2);
   ("c05_rto_exit_ok2", c05_rto_exit_ok2);
   ("c05_zero_window_ok_open", c05_zero_window_ok_open);
